@@ -50,8 +50,10 @@ def calibrator(cal):
         return None
     if isinstance(cal, ir.Poly):
         return K.PolynomialCalibrator([K.PolynomialCoefficient(coefficient=c, exponent=e) for c, e in cal.terms])
-    return K.SplineCalibrator([K.SplinePoint(raw=r, calibrated=c) for r, c in cal.points], order=cal.order,
-                              extrapolate=cal.extrapolate)
+    pts = [K.SplinePoint(raw=r, calibrated=c) for r, c in cal.points]
+    if len(pts) > 2:
+        pts = pts[1::2] + pts[0::2]     # hand the points over in a non-sorted order: order carries no meaning
+    return K.SplineCalibrator(pts, order=cal.order, extrapolate=cal.extrapolate)
 
 
 def context_cals(ccs):
